@@ -6,7 +6,7 @@ use std::sync::Mutex;
 use host::Ev;
 use roto::{List, NoCtx, Package, RotoString, TypedFunc, Val, Value};
 
-use crate::model::{Op, PATTERN, Res, Root, SEP, SLOTS, Shape, Side, Step};
+use crate::model::{Op, Res, Root, SEP, SLOTS, Shape, Side, Step};
 
 // ---------------------------------------------------------------- elements
 
@@ -19,8 +19,9 @@ pub trait Elem: 'static + Sized {
     const NAME: &'static str;
     /// the element type in Roto source
     const ROTO: &'static str;
-    /// all elements are equal (zero-sized type)
-    const DISTINCT: bool = true;
+    /// number of element values (see `Model::nvals`): 1 = zero-sized, all
+    /// equal; 2 = two elements, reflexive equality; 3 = NaN, 0.0, -0.0
+    const NVALS: u8 = 2;
     const JOIN: bool = false;
     /// elements are registered in the host ledger
     const TRACKED: bool = false;
@@ -136,7 +137,7 @@ impl Elem for EZ {
     type T = Val<host::Z>;
     const NAME: &'static str = "Val<Z>";
     const ROTO: &'static str = "Z";
-    const DISTINCT: bool = false;
+    const NVALS: u8 = 1;
     const TRACKED: bool = true;
     // `x` is deliberately not consumed here: using a zero-sized registered
     // value twice in a script drops it once too often (finding N8, not a list
@@ -199,6 +200,103 @@ impl Elem for EOpt {
                 _ => 254,
             })
             .collect()
+    }
+}
+
+/// floats: 0 = NaN, 1 = 0.0, 2 = -0.0 (equality is not reflexive, and not
+/// bitwise: NaN != NaN, 0.0 == -0.0)
+fn f64_mk(v: u8) -> f64 {
+    [f64::NAN, 0.0, -0.0][v as usize]
+}
+fn f64_abs(x: f64) -> u8 {
+    if x.is_nan() {
+        0
+    } else if x.to_bits() == 0 {
+        1
+    } else if x.to_bits() == (-0.0f64).to_bits() {
+        2
+    } else {
+        255
+    }
+}
+
+pub struct EF64;
+impl Elem for EF64 {
+    type T = f64;
+    const NAME: &'static str = "f64";
+    const ROTO: &'static str = "f64";
+    const NVALS: u8 = 3;
+    const EMIT: &'static str = "emit_f64(x);";
+    fn mk(v: u8) -> f64 {
+        f64_mk(v)
+    }
+    fn abs(t: &f64) -> u8 {
+        f64_abs(*t)
+    }
+    fn decode(log: Vec<Ev>) -> Vec<u8> {
+        log.iter().map(|e| if let Ev::F64(b) = e { f64_abs(f64::from_bits(*b)) } else { 254 }).collect()
+    }
+}
+
+pub struct EF32;
+impl Elem for EF32 {
+    type T = f32;
+    const NAME: &'static str = "f32";
+    const ROTO: &'static str = "f32";
+    const NVALS: u8 = 3;
+    const EMIT: &'static str = "emit_f32(x);";
+    fn mk(v: u8) -> f32 {
+        [f32::NAN, 0.0, -0.0][v as usize]
+    }
+    fn abs(t: &f32) -> u8 {
+        f64_abs(*t as f64)
+    }
+    fn decode(log: Vec<Ev>) -> Vec<u8> {
+        log.iter().map(|e| if let Ev::F32(b) = e { f64_abs(f32::from_bits(*b) as f64) } else { 254 }).collect()
+    }
+}
+
+/// nested lists of floats: 0 = `[NaN]`, 1 = `[0.0]`, 2 = `[-0.0]` (a fresh
+/// inner list per `mk`); inner lists compare element-wise, so the equality of
+/// these elements is the float equality
+pub struct ENestedF;
+impl ENestedF {
+    fn inner_abs(v: &[f64]) -> u8 {
+        if v.len() == 1 { f64_abs(v[0]) } else { 255 }
+    }
+}
+impl Elem for ENestedF {
+    type T = List<f64>;
+    const NAME: &'static str = "List<f64>";
+    const ROTO: &'static str = "List[f64]";
+    const NVALS: u8 = 3;
+    const EMIT: &'static str = "emit_u64(x.len()); for y in x { emit_f64(y); }";
+    fn mk(v: u8) -> List<f64> {
+        List::from(vec![f64_mk(v)])
+    }
+    fn abs(t: &List<f64>) -> u8 {
+        Self::inner_abs(&t.to_vec())
+    }
+    fn decode(log: Vec<Ev>) -> Vec<u8> {
+        let mut out = vec![];
+        let mut i = 0;
+        while i < log.len() {
+            let Ev::Int("u64", n) = log[i] else {
+                out.push(254);
+                break;
+            };
+            i += 1;
+            let mut inner = vec![];
+            for _ in 0..n as usize {
+                match log.get(i) {
+                    Some(Ev::F64(b)) => inner.push(f64::from_bits(*b)),
+                    _ => inner.push(1.5),
+                }
+                i += 1;
+            }
+            out.push(Self::inner_abs(&inner));
+        }
+        out
     }
 }
 
@@ -361,7 +459,7 @@ impl<E: Elem> Real<E> {
                 }
             }
         };
-        let l = fill(root.origin, &PATTERN[..root.len]);
+        let l = fill(root.origin, &crate::model::pattern(root.len, E::NVALS));
         match root.shape {
             Shape::Aliased => r.h[1] = Some(l.clone()),
             Shape::Distinct => r.h[1] = Some(fill(root.origin.other(), &[1])),
